@@ -35,9 +35,9 @@ def nontrivial(evs):
     return wrote and (junk or failed or edited)
 
 
-def select(behs, rnd, quotas=(400, 40, 30, 30)):
-    """stratified choice among the generated behaviours: A = an out-of-band edit of a table that an earlier Apply
-    had converged (the driver appends refresh-interval + Apply); B = an Apply with an edit / failure inside it after
+def select(behs, rnd, quotas=(1500, 60, 40, 40)):
+    """stratified choice among the generated behaviours: A = an out-of-band edit, or a new complete desired state, on
+    a table that an earlier Apply had converged (the driver appends refresh-interval + Apply); B = an Apply with an edit / failure inside it after
     an earlier Apply; C = anything else that goes on after a first Apply; D = first Apply from a start kernel"""
     cls = {"A": [], "B": [], "C": [], "D": []}
     for b in behs:
@@ -45,7 +45,7 @@ def select(behs, rnd, quotas=(400, 40, 30, 30)):
         first = ops.index("apply") if "apply" in ops else None
         deep = first is not None and first < len(ops) - 1
         last = [o for o in b if o.get("op") != "end"][-1]
-        if deep and last.get("op") == "edit":
+        if deep and last.get("op") in ("edit", "program"):
             cls["A"].append(b)
         elif deep and last.get("op") == "apply" and (last.get("pre") != "none" or last.get("fw") or last.get("fr")):
             cls["B"].append(b)
